@@ -875,6 +875,20 @@ impl Store {
         Ok((value_changed, ls_subscribers))
     }
 
+    /// Puts an entry into the store exactly as given, including its CAS version. Used to restore
+    /// persisted entries; does not notify anybody.
+    #[cfg(feature = "redb")]
+    pub fn restore_entry(&mut self, path: &[RegularKeySegment], value: ValueEntry) {
+        let mut current_node = &mut self.data;
+        for elem in path {
+            current_node = current_node.get_or_create_child(elem.to_owned()).0;
+        }
+        if current_node.value().is_none() {
+            self.len += 1;
+        }
+        current_node.set_value(value);
+    }
+
     pub fn ls(&self, path: &[impl AsRef<str>]) -> Option<Vec<RegularKeySegment>> {
         if path.is_empty() {
             panic!("path must not be empty!");
